@@ -238,6 +238,33 @@ var scenarios = map[string]func(t *testing.T, rep *Report, root string){
 		w.quiet()
 		w.S.StopAll()
 	},
+	// S27: a member whose addition is committed by a successor of the leader that proposed it never gets any entry
+	"S27-added-member-starves-after-leader-change": func(t *testing.T, rep *Report, root string) {
+		w := newWorld(t, rep, "S27-added-member-starves-after-leader-change", root, SimOpts{}, []uint64{1, 2, 3})
+		L := w.waitLeader(3 * time.Second)
+		B := w.others(L)[0]
+		w.submit("rep", L, 0, false)
+		w.auto(300*time.Millisecond, nil, nil)
+		w.S.Boot(4, "", 0, nil)
+		w.S.Start(4)
+		w.submit("add", L, 4, false)
+		// the configuration entry reaches B only; then the leader dies
+		for _, c := range w.S.Take(func(c *Call) bool { return true }) {
+			if c.From == L && c.To == B && c.Kind == "AE" && len(c.AE.Entries) > 0 {
+				w.S.Deliver(c)
+				w.note("deliver+reply %s -> %s", c, respString(c))
+				w.S.Reply(c)
+			} else {
+				w.S.Fail(c)
+			}
+		}
+		w.crashLogs[L] = w.S.Nodes[L].LogOf()
+		w.S.Crash(L)
+		w.note("crash node %d", L)
+		w.auto(6*time.Second, nil, func() bool { return w.S.Leader() != 0 })
+		w.quiet()
+		w.S.StopAll()
+	},
 	// S3: two removals back to back: the second is built from the un-updated configuration
 	"S3-lost-removal": func(t *testing.T, rep *Report, root string) {
 		w := newWorld(t, rep, "S3-lost-removal", root, SimOpts{}, []uint64{1, 2, 3, 4, 5})
